@@ -356,6 +356,14 @@ Section FitBook.
         else Ok (s4, mkDict dv dl dn dopt da)
     end.
 
+  (* ---------------- _r2_score: 1 - ss_res / ss_tot of the fitted curve [vs] against the data [ys] *)
+  Definition sum_l (l : list T) : T := fold_left (nadd O) l (n0 O).
+  Definition mean_l (l : list T) : T := ndiv O (sum_l l) (nofZ O (Z.of_nat (length l))).
+  Definition sqr (x : T) : T := nmul O x x.
+  Definition ss_res (ys vs : list T) : T := sum_l (map (fun p => sqr (nsub O (fst p) (snd p))) (combine ys vs)).
+  Definition ss_tot (ys : list T) : T := sum_l (map (fun y => sqr (nsub O y (mean_l ys))) ys).
+  Definition r2_score (ys vs : list T) : T := nsub O (n1 O) (ndiv O (ss_res ys vs) (ss_tot ys)).
+
   (* ---------------- fit_variogram, the optimiser being the oracle (evs, popt) *)
   Definition fit_run (fx : bool) c (nopt : nat) (sel : list (nat * Sel T)) (sill : SillSpec T) (anis : AnisSpec T)
       (isdir : bool) (evs : list (list T)) (popt : list T) (s0 : MState T) : Res (MState T * Dict T) :=
